@@ -3,6 +3,8 @@
 //! inside the simulated world; the seed varies DMA placement and the queue index.
 
 use crate::mtransport::ModelTransport;
+use crate::zoo::{self, TKind, TransportFn};
+use virtio_drivers::transport::Transport;
 use crate::scen::queue::{SIZES, new_queue};
 use crate::world::*;
 use virtio_drivers::Error;
@@ -10,7 +12,33 @@ use virtio_drivers::Error;
 pub const GRID: u64 = 16 * 2 * 8 * 5;
 
 pub fn grid_run() {
-    let cell = choose(GRID);
+    run_cell(choose(GRID), None);
+}
+
+/// The same cell checks over the real MMIO (legacy and modern) and PCI transports: what reaches the
+/// register-level device must be the areas the queue allocated. Only the "queue free and large
+/// enough" answer: the other answers are the model transport's.
+pub fn real_transports() {
+    let tk = [TKind::MmioModern, TKind::MmioLegacy, TKind::SomeMmio, TKind::Pci, TKind::SomePci][choose(5) as usize];
+    let size_i = choose(16);
+    let flags = choose(8);
+    let cell = size_i + 16 * (tk.legacy() as u64) + 32 * flags;
+    run_cell(cell, Some(tk));
+}
+
+struct Cell {
+    cell: u64,
+    size: usize,
+    legacy: bool,
+    indirect: bool,
+    event_idx: bool,
+    ap: bool,
+    answer: u64,
+    qidx: u16,
+    fail_second: bool,
+}
+
+fn run_cell(cell: u64, tk: Option<TKind>) {
     let size = SIZES[(cell % 16) as usize];
     let legacy = (cell / 16) % 2 == 1;
     let flags = (cell / 32) % 8;
@@ -18,14 +46,21 @@ pub fn grid_run() {
     let (indirect, event_idx, ap) = (flags & 1 != 0, flags & 2 != 0, flags & 4 != 0);
     let qidx = choose(4) as u16;
     let skew = choose(1 << 16);
+    // Sometimes the platform's DMA memory lies just below a 4 GiB boundary, so that the areas of
+    // one queue differ in the upper 32 bits of their addresses.
+    let near_4g = if flip(1, 4) { Some(((2 + choose(6)) << 32) - (1 + choose(12)) * PAGE) } else { None };
     let fail_second = answer == 0 && !legacy && flip(1, 4);
     oplog(|| format!("cell {cell}: size {size} legacy {legacy} indirect {indirect} event_idx {event_idx} access_platform {ap} answer {answer} queue {qidx} placement+{skew} pages fail_second_alloc {fail_second}"));
     with(|w| {
         w.cfg.device_active = false;
         w.ensure_queues(4, 32768);
         w.tr.legacy = legacy;
+        w.tr.device_type = 2;
         w.tr.status = ST_ACK | ST_DRIVER | ST_FEATURES_OK;
         w.hal.next_dma += skew * PAGE;
+        if let Some(base) = near_4g {
+            w.hal.next_dma = base;
+        }
         let r = &mut w.tr.queues[qidx as usize];
         match answer {
             0 => r.max_size = 32768,
@@ -40,131 +75,154 @@ pub fn grid_run() {
         w.hal.capture = Some(Vec::new());
         w.tr.capture = Some(Vec::new());
     });
-    let mut t = ModelTransport::new();
-    let r = new_queue(size, &mut t, qidx, indirect, event_idx, ap);
-    let (hal, tr) = with(|w| (w.hal.capture.take().unwrap(), w.tr.capture.take().unwrap()));
-    let expect_err = match answer {
-        1 => Some(Error::AlreadyUsed),
-        3 | 4 => Some(Error::InvalidParam),
-        _ if fail_second => Some(Error::DmaError),
-        _ => None,
-    };
-    let site = if legacy { "legacy" } else { "modern" };
-    match (&r, expect_err) {
-        (Err(e), Some(want)) => {
-            if *e != want {
-                violation("queue-new-wrong-error", site, format!("VirtQueue::new returned {e:?}, expected {want:?}"));
-            }
-            let allocs = hal.iter().filter(|e| matches!(e, HalEv::Alloc { .. })).count();
-            let sets = tr.iter().filter(|e| matches!(e, TrEv::QueueSet { .. })).count();
-            if !fail_second && (allocs != 0 || sets != 0) {
-                violation("refused-queue-side-effect", site, format!("refused creation performed {allocs} allocation(s) and {sets} queue_set call(s)"));
-            }
-            if fail_second {
-                nontrivial();
-                if sets != 0 {
-                    violation("queue-set-after-failed-alloc", site, "queue registered although an allocation failed".into());
-                }
-                with(|w| {
-                    if !w.hal.dma.is_empty() {
-                        let n = w.hal.dma.len();
-                        w.violation("dma-leak", site, format!("{n} DMA region(s) leaked when the second allocation failed"));
-                    }
-                });
+    let c = Cell { cell, size, legacy, indirect, event_idx, ap, answer, qidx, fail_second };
+    match tk {
+        None => c.call(ModelTransport::new()),
+        Some(tk) => {
+            if let Err(e) = zoo::with_transport(tk, c) {
+                violation("transport-construction-failed", "zoo", e);
             }
         }
-        (Ok(_), Some(want)) => violation("queue-new-accepted-wrongly", site, format!("VirtQueue::new succeeded, expected {want:?}")),
-        (Err(e), None) => violation("queue-new-refused-wrongly", site, format!("VirtQueue::new failed with {e:?} on a free queue of sufficient size")),
-        (Ok(_), None) => {
-            nontrivial();
-            let sets: Vec<&TrEv> = tr.iter().filter(|e| matches!(e, TrEv::QueueSet { .. })).collect();
-            if sets.len() != 1 {
-                violation("queue-set-count", site, format!("{} queue_set calls", sets.len()));
-            } else if let TrEv::QueueSet { q, size: s, desc, driver, device } = sets[0] {
-                let n = size as u64;
-                if *q != qidx || *s != size as u32 {
-                    violation("queue-set-args", site, format!("queue_set(queue {q}, size {s}) for queue {qidx} of size {size}"));
+    }
+}
+
+impl TransportFn<()> for Cell {
+    fn call<T: Transport + 'static>(self, mut t: T) {
+        let Cell { cell, size, legacy, indirect, event_idx, ap, answer, qidx, fail_second } = self;
+        if legacy {
+            // part of the handshake every driver performs before it creates queues
+            t.set_guest_page_size(PAGE as u32);
+        }
+        // the transport's own construction may have allocated nothing, but start the captures here
+        with(|w| {
+            w.hal.capture = Some(Vec::new());
+            w.tr.capture = Some(Vec::new());
+        });
+        let r = new_queue(size, &mut t, qidx, indirect, event_idx, ap);
+        let (hal, tr) = with(|w| (w.hal.capture.take().unwrap(), w.tr.capture.take().unwrap()));
+        let expect_err = match answer {
+            1 => Some(Error::AlreadyUsed),
+            3 | 4 => Some(Error::InvalidParam),
+            _ if fail_second => Some(Error::DmaError),
+            _ => None,
+        };
+        let site = if legacy { "legacy" } else { "modern" };
+        match (&r, expect_err) {
+            (Err(e), Some(want)) => {
+                if *e != want {
+                    violation("queue-new-wrong-error", site, format!("VirtQueue::new returned {e:?}, expected {want:?}"));
                 }
-                let areas = [("descriptor area", *desc, 16 * n, 16u64), ("driver area", *driver, 6 + 2 * n, 2), ("device area", *device, 6 + 8 * n, 4)];
-                for (name, a, _l, al) in areas {
-                    if a % al != 0 {
-                        violation("queue-area-misaligned", site, format!("{name} {a:#x} not {al}-byte aligned"));
+                let allocs = hal.iter().filter(|e| matches!(e, HalEv::Alloc { .. })).count();
+                let sets = tr.iter().filter(|e| matches!(e, TrEv::QueueSet { .. })).count();
+                if !fail_second && (allocs != 0 || sets != 0) {
+                    violation("refused-queue-side-effect", site, format!("refused creation performed {allocs} allocation(s) and {sets} queue_set call(s)"));
+                }
+                if fail_second {
+                    nontrivial();
+                    if sets != 0 {
+                        violation("queue-set-after-failed-alloc", site, "queue registered although an allocation failed".into());
                     }
+                    with(|w| {
+                        if !w.hal.dma.is_empty() {
+                            let n = w.hal.dma.len();
+                            w.violation("dma-leak", site, format!("{n} DMA region(s) leaked when the second allocation failed"));
+                        }
+                    });
                 }
-                for i in 0..3 {
-                    for j in i + 1..3 {
-                        let (a, b) = (areas[i], areas[j]);
-                        if a.1 < b.1 + b.2 && b.1 < a.1 + a.2 {
-                            violation("queue-areas-overlap", site, format!("{} {:#x}+{} overlaps {} {:#x}+{}", a.0, a.1, a.2, b.0, b.1, b.2));
+            }
+            (Ok(_), Some(want)) => violation("queue-new-accepted-wrongly", site, format!("VirtQueue::new succeeded, expected {want:?}")),
+            (Err(e), None) => violation("queue-new-refused-wrongly", site, format!("VirtQueue::new failed with {e:?} on a free queue of sufficient size")),
+            (Ok(_), None) => {
+                nontrivial();
+                let sets: Vec<&TrEv> = tr.iter().filter(|e| matches!(e, TrEv::QueueSet { .. })).collect();
+                if sets.len() != 1 {
+                    violation("queue-set-count", site, format!("{} queue_set calls", sets.len()));
+                } else if let TrEv::QueueSet { q, size: s, desc, driver, device } = sets[0] {
+                    let n = size as u64;
+                    if *q != qidx || *s != size as u32 {
+                        violation("queue-set-args", site, format!("queue_set(queue {q}, size {s}) for queue {qidx} of size {size}"));
+                    }
+                    let areas = [("descriptor area", *desc, 16 * n, 16u64), ("driver area", *driver, 6 + 2 * n, 2), ("device area", *device, 6 + 8 * n, 4)];
+                    for (name, a, _l, al) in areas {
+                        if a % al != 0 {
+                            violation("queue-area-misaligned", site, format!("{name} {a:#x} not {al}-byte aligned"));
                         }
                     }
-                }
-                with(|w| {
-                    for (name, a, l, _) in areas {
-                        match w.hal.find_dma(a, l as usize).cloned() {
-                            None => w.violation("queue-area-not-dma", site, format!("{name} {a:#x}+{l} is not wholly inside one live DMA allocation")),
-                            Some(r) => {
-                                let dev_writes = name == "device area";
-                                let ok = if dev_writes { r.dir != Dir::DriverToDevice } else { r.dir != Dir::DeviceToDriver };
-                                if !ok {
-                                    w.violation("queue-area-direction", site, format!("{name} in DMA memory allocated {}", r.dir.name()));
-                                }
-                                if r.ap != ap {
-                                    w.violation("dma-access-platform", site, format!("DMA allocated with access_platform={} for a queue with {}", r.ap, ap));
-                                }
+                    for i in 0..3 {
+                        for j in i + 1..3 {
+                            let (a, b) = (areas[i], areas[j]);
+                            if a.1 < b.1 + b.2 && b.1 < a.1 + a.2 {
+                                violation("queue-areas-overlap", site, format!("{} {:#x}+{} overlaps {} {:#x}+{}", a.0, a.1, a.2, b.0, b.1, b.2));
                             }
                         }
                     }
-                });
-                let allocs: Vec<&HalEv> = hal.iter().filter(|e| matches!(e, HalEv::Alloc { .. })).collect();
-                if legacy {
-                    if allocs.len() != 1 {
-                        violation("legacy-allocation-count", site, format!("{} allocations for the legacy layout", allocs.len()));
-                    }
-                    let used_want = (*desc + 16 * n + 6 + 2 * n + PAGE - 1) & !(PAGE - 1);
-                    if *desc % PAGE != 0 || *driver != *desc + 16 * n || *device != used_want {
-                        violation(
-                            "legacy-layout",
-                            site,
-                            format!("legacy layout: table {desc:#x}, available ring {driver:#x} (want {:#x}), used ring {device:#x} (want {used_want:#x})", *desc + 16 * n),
-                        );
+                    with(|w| {
+                        for (name, a, l, _) in areas {
+                            match w.hal.find_dma(a, l as usize).cloned() {
+                                None => w.violation("queue-area-not-dma", site, format!("{name} {a:#x}+{l} is not wholly inside one live DMA allocation")),
+                                Some(r) => {
+                                    let dev_writes = name == "device area";
+                                    let ok = if dev_writes { r.dir != Dir::DriverToDevice } else { r.dir != Dir::DeviceToDriver };
+                                    if !ok {
+                                        w.violation("queue-area-direction", site, format!("{name} in DMA memory allocated {}", r.dir.name()));
+                                    }
+                                    if r.ap != ap {
+                                        w.violation("dma-access-platform", site, format!("DMA allocated with access_platform={} for a queue with {}", r.ap, ap));
+                                    }
+                                }
+                            }
+                        }
+                    });
+                    let allocs: Vec<&HalEv> = hal.iter().filter(|e| matches!(e, HalEv::Alloc { .. })).collect();
+                    if legacy {
+                        if allocs.len() != 1 {
+                            violation("legacy-allocation-count", site, format!("{} allocations for the legacy layout", allocs.len()));
+                        }
+                        let used_want = (*desc + 16 * n + 6 + 2 * n + PAGE - 1) & !(PAGE - 1);
+                        if *desc % PAGE != 0 || *driver != *desc + 16 * n || *device != used_want {
+                            violation(
+                                "legacy-layout",
+                                site,
+                                format!("legacy layout: table {desc:#x}, available ring {driver:#x} (want {:#x}), used ring {device:#x} (want {used_want:#x})", *desc + 16 * n),
+                            );
+                        }
                     }
                 }
             }
         }
+        // release: transport (reset) first, then the queue, as the drivers do
+        with(|w| w.hal.capture = Some(Vec::new()));
+        let allocated: Vec<(u64, usize, usize)> = hal
+            .iter()
+            .filter_map(|e| match e {
+                HalEv::Alloc { paddr, vaddr, pages, failed: false, .. } => Some((*paddr, *vaddr, *pages)),
+                _ => None,
+            })
+            .collect();
+        drop(t);
+        drop(r);
+        let rel = with(|w| w.hal.capture.take().unwrap());
+        let mut freed: Vec<(u64, usize, usize)> = hal
+            .iter()
+            .chain(rel.iter())
+            .filter_map(|e| match e {
+                HalEv::Dealloc { paddr, vaddr, pages, .. } => Some((*paddr, *vaddr, *pages)),
+                _ => None,
+            })
+            .collect();
+        let mut a = allocated.clone();
+        a.sort();
+        freed.sort();
+        if a != freed && !violated() {
+            violation(
+                "dma-release-mismatch",
+                site,
+                format!("allocated {:x?} (paddr, pages) but released {:x?}", a.iter().map(|x| (x.0, x.2)).collect::<Vec<_>>(), freed.iter().map(|x| (x.0, x.2)).collect::<Vec<_>>()),
+            );
+        }
+        with(|w| {
+            let key = crate::rng::mix(&[cell]);
+            w.stats.states.insert(key);
+        });
     }
-    // release: transport (reset) first, then the queue, as the drivers do
-    with(|w| w.hal.capture = Some(Vec::new()));
-    let allocated: Vec<(u64, usize, usize)> = hal
-        .iter()
-        .filter_map(|e| match e {
-            HalEv::Alloc { paddr, vaddr, pages, failed: false, .. } => Some((*paddr, *vaddr, *pages)),
-            _ => None,
-        })
-        .collect();
-    drop(t);
-    drop(r);
-    let rel = with(|w| w.hal.capture.take().unwrap());
-    let mut freed: Vec<(u64, usize, usize)> = hal
-        .iter()
-        .chain(rel.iter())
-        .filter_map(|e| match e {
-            HalEv::Dealloc { paddr, vaddr, pages, .. } => Some((*paddr, *vaddr, *pages)),
-            _ => None,
-        })
-        .collect();
-    let mut a = allocated.clone();
-    a.sort();
-    freed.sort();
-    if a != freed && !violated() {
-        violation(
-            "dma-release-mismatch",
-            site,
-            format!("allocated {:x?} (paddr, pages) but released {:x?}", a.iter().map(|x| (x.0, x.2)).collect::<Vec<_>>(), freed.iter().map(|x| (x.0, x.2)).collect::<Vec<_>>()),
-        );
-    }
-    with(|w| {
-        let key = crate::rng::mix(&[cell]);
-        w.stats.states.insert(key);
-    });
 }
